@@ -305,6 +305,25 @@ func (w *World) run(op *Op) (interface{}, error) {
 		return w.in(op, 0).Min(w.arg("axes", op.I)...)
 	case "PkgSum":
 		return asDense(tensor.Sum(w.in(op, 0), w.arg("axes", op.I)...))
+	case "Norm":
+		var ord tensor.NormOrder
+		switch op.N {
+		case 0:
+			ord = tensor.UnorderedNorm()
+		case 1:
+			ord = tensor.FrobeniusNorm()
+		case 2:
+			ord = tensor.Norm(2)
+		case 3:
+			ord = tensor.Norm(1)
+		case 4:
+			ord = tensor.InfNorm()
+		case 5:
+			ord = tensor.NegInfNorm()
+		default:
+			ord = tensor.Norm(0)
+		}
+		return w.in(op, 0).Norm(ord, w.arg("axes", op.I)...)
 	case "Argmax":
 		return w.in(op, 0).Argmax(op.N)
 	case "Argmin":
